@@ -113,6 +113,7 @@ int64_t rt_cell_add(uint32_t idx, int64_t d);   // returns the new value
 int64_t rt_cell_get(uint32_t idx);
 void rt_cell_set(uint32_t idx, int64_t v);
 constexpr uint32_t RT_NCELLS = 1u << 20;
+void rt_ledger_reset();                          // single-task harnesses (no rt_run_begin)
 void rt_probe(uint32_t idx);                     // reach probes (counted)
 uint64_t rt_probe_get(uint32_t idx);
 constexpr uint32_t RT_NPROBES = 64;
